@@ -122,6 +122,14 @@ def build(cfg, seed_, mode="auto", lin="Direct", nl="NLBGS_aitken", point=0, lin
     recs = [surface_rec(cfg, rng)]
     if cfg["two"]:
         recs.append(surface_rec(cfg, rng, "tail", True))
+        for j in range(int(cfg.get("extra_surfaces", 0))):
+            # a third / fourth lifting surface of another size (the index arithmetic that runs over the list of surfaces is only
+            # exercised beyond its first step from the third surface on)
+            r3 = surface_rec(cfg, rng, ["canard", "fin"][j % 2], True)
+            r3.update(nx=3 if recs[0]["nx"] == 2 else 2, ny=recs[0]["ny"] + (1 if not recs[0]["sym"] else 1) * (0 if recs[0]["sym"] else 1) + (1 if recs[0]["sym"] else 1), span=5.0 + j, chord=1.2, off=(-6.0 - 3.0 * j, 0.0, 0.8 + j))
+            if not r3["sym"] and r3["ny"] % 2 == 0:
+                r3["ny"] += 1
+            recs.append(r3)
     beta = 0.0 if cfg["rg"]["beta"] == "zero" else float(rng.uniform(-6, 6))
     mach = MACH[cfg["rg"]["mach"]]
     if kind in ("aero",):
